@@ -20,6 +20,7 @@ class Loop:
     decreases: Optional[Callable] = None   # for while loops: measure(cx, v) -> int term (>=0, strictly decreasing)
     label: str = ""
     hints: tuple = ()                  # intermediate assertions for the step obligation: h(cx, k, v) (proved, then assumed)
+    modifies: Optional[list] = None    # heap keys the loop body may write (None: the frame of the whole function); checked at every write
 
 
 @dataclass
@@ -70,8 +71,8 @@ class Contract:
         self.raises.append(Raise(exc, when, exact, label or exc))
         return self
 
-    def loop(self, ordinal, inv, decreases=None, label="", hints=()):
-        self.loops[ordinal] = Loop(inv, decreases, label or f"loop{ordinal}", tuple(hints))
+    def loop(self, ordinal, inv, decreases=None, label="", hints=(), modifies=None):
+        self.loops[ordinal] = Loop(inv, decreases, label or f"loop{ordinal}", tuple(hints), modifies)
         return self
 
 
